@@ -55,7 +55,13 @@ def oracle(case):
     cf = opts.pop("column_fmt", None)
     if cf:
         opts["column_fmt"] = {int(k): v for k, v in cf.items()}
-    desc = {"curves": [["C%d" % j, "", "", "", col] for j, col in enumerate(cols)]}
+    names = ["C%d" % j for j in range(c)]
+    if case.get("names") == "numeric" and c >= 2:
+        # numbered channels named after ANOTHER position: the binding of samples to curves must not follow the name
+        names = ["DEPT"] + [str(c - j) for j in range(1, c)]
+    desc = {"curves": [[names[j], "", "", "", col] for j, col in enumerate(cols)]}
+    if case.get("null"):
+        desc["null"] = case["null"]  # any NULL marker must carry the NaNs through the file
     las = build.build_las(desc)
     if case.get("fmt_first"):
         # a previous write with another fmt and the SAME column_fmt dict object: write() must not keep state in it
@@ -108,15 +114,16 @@ def oracle(case):
             out.fail("reread-raises|%s|%s" % (back.bucket, tag), "%s\nopts=%r\n%s" % (back, case["opts"], text[-1500:]))
             continue
         keys = back.keys()
-        if keys != ["C%d" % j for j in range(c)] or [cv.original_mnemonic for cv in back.curves] != keys:
-            out.fail("curves-differ|" + tag, "expected %d curves C0.., got %r\nopts=%r\n%s" % (c, keys, case["opts"], text[-1500:]))
+        if keys != names or [cv.original_mnemonic for cv in back.curves] != keys:
+            out.fail("curves-differ|" + tag, "expected curves %r, got %r\nopts=%r\n%s" % (names[:8], keys[:8], case["opts"], text[-1500:]))
             continue
         if any(len(cv.data) != r for cv in back.curves):
             out.fail("rows-differ|" + tag, "expected %d rows, got %r\nopts=%r\n%s" % (r, [len(cv.data) for cv in back.curves][:8], case["opts"], text[-1500:]))
             continue
+        by_position = list(back.curves)  # iteration is positional; indexing by int goes through the mnemonic lookup
         for j in range(c):
             fmt = fmt_of(case, j)
-            data = back.curves[j].data
+            data = by_position[j].data
             for i in range(r):
                 x = fdec(cols[j][i])
                 try:
@@ -174,7 +181,8 @@ def cases(draw, max_rows=6):
     spacer = draw(st.sampled_from([" ", " ", "  ", "\t", " \t", ""]))
     lhs = draw(st.sampled_from([" ", " ", "", "   ", "\t"]))
     r = draw(st.integers(1, max_rows))
-    nullv = -9999.25
+    nullspec = draw(st.sampled_from([None, None, None, None, None, ["f", "1e+30"], ["f", "-1e+20"], ["i", -999], ["f", "-999.25"], ["i", 2147483647]]))
+    nullv = -9999.25 if nullspec is None else float(build.val(nullspec))
     full = draw(st.booleans())
 
     def sample(f):
@@ -252,7 +260,7 @@ def cases(draw, max_rows=6):
                 col.append(fenc(sample(f_of(j))))
         cols.append(col)
     # preconditions: token widths
-    longest = len(str(nullv))
+    longest = len(str(-9999.25 if nullspec is None else build.val(nullspec)))
     for j, col in enumerate(cols):
         for cell in col:
             if cell != "nan":
@@ -267,6 +275,9 @@ def cases(draw, max_rows=6):
     need = eff_field + max(len(spacer), len(lhs)) * 8 + 1
     if wrap and data_width < need:
         data_width = need
+    if wrap and "\t" not in spacer + lhs and draw(st.integers(0, 5)) == 0:
+        # boundary of the documented precondition: the widest token just fits on a line of its own
+        data_width = max(longest, 1)
     opts = dict(version=version, wrap=wrap, fmt=fmt, len_numeric_field=lnf, spacer=spacer, lhs_spacer=lhs,
                 data_width=data_width, mnemonics_header=draw(st.booleans()),
                 data_section_header=draw(st.sampled_from(["~ASCII", "~A", "~A log data"])))
@@ -274,6 +285,10 @@ def cases(draw, max_rows=6):
     if col_fmt:
         opts["column_fmt"] = col_fmt
     case = dict(cols=cols, opts=opts, lnf_kind=lnf_kind)
+    if draw(st.integers(0, 5)) == 0:
+        case["names"] = "numeric"
+    if nullspec is not None:
+        case["null"] = nullspec
     if col_fmt and draw(st.booleans()):
         case["fmt_first"] = draw(st.sampled_from(["%.1f", "%.2f", "%.0f"]))
     return case
